@@ -149,8 +149,14 @@ impl<T: FileReader> RVParser<T> {
                 }
                 Err(x) => match x {
                     LexError::Expected(ex, got) => {
+                        // If the line ended too early, the newline has already
+                        // been consumed: skipping to the next newline would
+                        // drop the following line.
+                        let at_end_of_line = *got.token_type() == TokenType::Newline;
                         parse_errors.push(ParseError::Expected(ex, got));
-                        self.recover_from_parse_error();
+                        if !at_end_of_line {
+                            self.recover_from_parse_error();
+                        }
                     }
                     LexError::IsNewline(_) => {}
                     LexError::UnexpectedToken(got) => {
